@@ -4,16 +4,19 @@ import PnaVerif.Model.Cli.Extract
 `extract_entry` transcribed over the abstract file system (`Model/Fs.lean`,
 `Model/Cli/Extract.lean`, cross-checked against the Linux VFS by the `extract-fs` family).
 
-The full statement — "extracting any archive creates, modifies or links nothing outside the
-output directory" — is **false** of the model and of the code; the two escapes are proved here
-with concrete witnesses and recorded as known findings (`C09-symlink-then-path`,
-`C09-hardlink-source-escapes`):
-* `escape_through_symlink` — a symbolic-link entry followed by an entry beneath it writes outside;
-* `escape_hardlink_source` — a hard-link entry whose source leaves the output directory links an
+Before the `fix:` the full statement — "extracting any archive creates, modifies or links nothing
+outside the output directory" — was false of the model and of the code; the two escapes are kept
+here as kernel-checked witnesses against the *legacy* transcription, so that the statement is
+seen to discriminate:
+* `legacy_escape_through_symlink` — a symbolic-link entry followed by an entry beneath it wrote outside;
+* `legacy_escape_hardlink_source` — a hard-link entry whose source left the output directory linked an
   outside inode in.
-What does hold, and is what part 1 (`Props/C09.lean`) contributes: the *names* themselves never
-point outside, so without link entries every destination path is lexically below the output
-directory (`dest_below_out`).
+With `ensure_confined` (nothing is extracted through a symbolic link below the output directory;
+a link at the destination is an existing object; a hard-link source must be an object inside the
+output directory reached without passing through a link) the same archives are refused
+(`symlink_then_path_refused`, `hardlink_source_refused`, and the variants through a dangling link,
+an absolute source, a source beneath a link, `--overwrite` onto a link), and the general
+statement is `Props/C09Confined.lean`.
 -/
 namespace Pna.C09Fs
 open Pna Pna.Fs Pna.Cli
@@ -38,27 +41,77 @@ def OutsideUnchanged (before after : Fs) : Prop :=
 
 instance (a b : Fs) : Decidable (outsideNodes a = outsideNodes b) := inferInstance
 
-/-- symlink `l -> ../outside`, then file `l/x`: `x` is created in /s/outside. -/
-theorem escape_through_symlink :
+/-- (legacy) symlink `l -> ../outside`, then file `l/x`: `x` was created in /s/outside. -/
+theorem legacy_escape_through_symlink :
     let es : List XEntry := [⟨[108], 2, [46, 46, 47] ++ outside⟩, ⟨[108, 47, 120], 0, [9]⟩]
-    let r := extractAll false [s] out fs0 es
+    let r := extractAllLegacy false [s] out fs0 es
     r.2 = none ∧ outsideNodes r.1 ≠ outsideNodes fs0 ∧ r.1.lookup [s, outside, [120]] = some (.file 2) := by
   decide +kernel
 
-/-- hard link `h` with source `../outside/sec`: the outside inode gains a link inside `out`. -/
-theorem escape_hardlink_source :
+/-- (legacy) hard link `h` with source `../outside/sec`: the outside inode gained a link inside `out`. -/
+theorem legacy_escape_hardlink_source :
     let es : List XEntry := [⟨[104], 3, [46, 46, 47] ++ outside ++ [47] ++ secret⟩]
-    let r := extractAll false [s] out fs0 es
+    let r := extractAllLegacy false [s] out fs0 es
     r.2 = none ∧ r.1.lookup [s, out, [104]] = some (.file 1) ∧
     (r.1.nodes.filter (·.2 == .file 1)).length = 2 := by
   decide +kernel
 
-/-- Hence the full statement is false. -/
-theorem C09_full_is_false :
-    ¬ (∀ (ow : Bool) (fs : Fs) (es : List XEntry), outsideNodes (extractAll ow [s] out fs es).1 = outsideNodes fs) := by
+/-- Hence the full statement was false of the legacy behaviour. -/
+theorem legacy_C09_full_is_false :
+    ¬ (∀ (ow : Bool) (fs : Fs) (es : List XEntry), outsideNodes (extractAllLegacy ow [s] out fs es).1 = outsideNodes fs) := by
   intro h
   have := h false fs0 [⟨[108], 2, [46, 46, 47] ++ outside⟩, ⟨[108, 47, 120], 0, [9]⟩]
-  exact escape_through_symlink.2.1 this
+  exact legacy_escape_through_symlink.2.1 this
+
+/-- after the fix: the link is created, the entry beneath it is refused, nothing outside changes -/
+theorem symlink_then_path_refused :
+    let es : List XEntry := [⟨[108], 2, [46, 46, 47] ++ outside⟩, ⟨[108, 47, 120], 0, [9]⟩]
+    let r := extractAll false [s] out fs0 es
+    r.2 = some .outside ∧ outsideNodes r.1 = outsideNodes fs0 ∧ r.1.lookup [s, outside, [120]] = none ∧
+    r.1.lookup [s, out, [108]] = some (.link ([46, 46, 47] ++ outside)) := by
+  decide +kernel
+
+/-- the same with `--overwrite` -/
+theorem symlink_then_path_refused_overwrite :
+    let es : List XEntry := [⟨[108], 2, [46, 46, 47] ++ outside⟩, ⟨[108, 47, 120], 0, [9]⟩]
+    let r := extractAll true [s] out fs0 es
+    r.2 = some .outside ∧ outsideNodes r.1 = outsideNodes fs0 := by
+  decide +kernel
+
+/-- a file entry with the name of a dangling link written earlier: the link is an existing object
+    (without `--overwrite`), or is replaced by a regular file inside `out` (with it); the target
+    outside is never created -/
+theorem dangling_link_not_written_through :
+    let es : List XEntry := [⟨[108], 2, [46, 46, 47] ++ outside ++ [47, 110]⟩, ⟨[108], 0, [9]⟩]
+    (extractAll false [s] out fs0 es).2 = some .alreadyExists ∧
+    outsideNodes (extractAll false [s] out fs0 es).1 = outsideNodes fs0 ∧
+    outsideNodes (extractAll true [s] out fs0 es).1 = outsideNodes fs0 ∧
+    (extractAll true [s] out fs0 es).1.lookup [s, out, [108]] = some (.file 2) := by
+  decide +kernel
+
+/-- `--overwrite` onto a link to an outside file replaces the link, not the file -/
+theorem overwrite_replaces_link_not_target :
+    let es : List XEntry := [⟨[108], 2, [46, 46, 47] ++ outside ++ [47] ++ secret⟩, ⟨[108], 0, [9]⟩]
+    let r := extractAll true [s] out fs0 es
+    r.2 = none ∧ r.1.content 1 = [1, 2, 3] ∧ outsideNodes r.1 = outsideNodes fs0 := by
+  decide +kernel
+
+/-- a hard-link source that climbs out, is absolute, or lies beneath a link is refused -/
+theorem hardlink_source_refused :
+    (extractAll false [s] out fs0 [⟨[104], 3, [46, 46, 47] ++ outside ++ [47] ++ secret⟩]).2 = some .outside ∧
+    (extractAll false [s] out fs0 [⟨[104], 3, [47, 115, 47] ++ outside ++ [47] ++ secret⟩]).2 = some .outside ∧
+    (extractAll false [s] out fs0 [⟨[108], 2, [46, 46, 47] ++ outside⟩, ⟨[104], 3, [108, 47] ++ secret⟩]).2 = some .outside ∧
+    (extractAll false [s] out fs0 [⟨[108], 2, [46, 46, 47] ++ outside⟩, ⟨[104], 3, [108, 47] ++ secret⟩]).1.lookup [s, out, [104]] = none := by
+  decide +kernel
+
+/-- non-vacuity: ordinary archives still extract, links and hard links to inside objects included -/
+theorem ordinary_archive_extracts :
+    let es : List XEntry := [⟨[100, 47, 97], 0, [7]⟩, ⟨[108], 2, [100, 47, 97]⟩, ⟨[100, 47, 104], 3, [97]⟩, ⟨[101], 1, []⟩]
+    let r := extractAll false [s] out fs0 es
+    r.2 = none ∧ r.1.lookup [s, out, [100], [97]] = some (.file 2) ∧ r.1.lookup [s, out, [100], [104]] = some (.file 2) ∧
+    r.1.lookup [s, out, [108]] = some (.link [100, 47, 97]) ∧ r.1.lookup [s, out, [101]] = some .dir ∧
+    outsideNodes r.1 = outsideNodes fs0 := by
+  decide +kernel
 
 /-- Lexical containment: for a sanitised name (no root, no `..`), the destination string is the
     output directory followed by the name — the path handed to the OS never *spells* an escape. -/
